@@ -2,6 +2,7 @@ package main
 
 import (
 	"strings"
+	"verifharness/internal/serve"
 
 	"verifharness/internal/allow"
 	"verifharness/internal/report"
@@ -23,10 +24,23 @@ func init() {
 		run.Assumptions = []string{"templates inside the grammar of the quantifier (checked per table by the driver: Config.wfTemplates)", "If-conditions are pure functions of the request"}
 		n := sizes(run, 150, 3000)
 		p := routing.PropSpec{ID: "C01", SpecKey: "C01", Proj: routing.ProjWhich, NeedWF: true}
-		return routing.CheckStreams(run, p, []routing.StreamSpec{
+		if err := routing.CheckStreams(run, p, []routing.StreamSpec{
 			{Name: "curly", Opts: routing.FullOpts("curly"), NCfg: n, PerCfg: 20},
 			{Name: "jsr", Opts: routing.FullOpts("jsr"), NCfg: n, PerCfg: 20},
-		})
+		}); err != nil {
+			return err
+		}
+		// "the route that filters and the handler see as the selected route is the one whose function
+		// runs" while other requests are being routed: batches of requests to different routes held
+		// together after routing (at the first container filter) and released; the stage log (which
+		// function ran, selected route path and parameters seen by every stage) must be the sequential one
+		for _, router := range []string{"curly", "jsr"} {
+			sp := serve.PropSpec{ID: "C01", Proj: serve.ProjLog}
+			if err := serve.CheckConcurrent(run, sp, serve.GenOpts{Router: router, PanicPct: 0}, n, 6); err != nil {
+				return err
+			}
+		}
+		return nil
 	}
 }
 
